@@ -24,6 +24,8 @@ func wrapRoute(route []string, v any) any {
 	for i := len(route) - 1; i >= 0; i-- {
 		if name, ok := strings.CutPrefix(route[i], "p:"); ok {
 			v = map[string]any{name: v}
+		} else if route[i] == "k" {
+			v = map[string]any{fmt.Sprint(v): true} // the marker travels on as a property NAME
 		} else {
 			v = []any{v}
 		}
@@ -158,6 +160,13 @@ func NewDynUniverse(r *rand.Rand) *DynUniverse {
 	}
 	fin := map[string]any{"$dynamicRef": u.Final}
 	var shape []string
+	// the final $dynamicRef judges property NAMES: with a fork the same name is then judged by the same
+	// propertyNames subschema under two dynamic scopes within one call
+	nameFin := r.IntN(5) == 0
+	if nameFin {
+		fin = map[string]any{"propertyNames": fin}
+		shape = append(shape, "propertyNames")
+	}
 	// decoy: a further resource that declares the dynamic anchor and accepts only its own marker. Hops may first send the
 	// instance INTO the decoy through a keyword that carries on after a failed subschema (anyOf, not, if, contains): the
 	// decoy is entered and left again before the real path continues, and must leave nothing in the dynamic scope.
@@ -271,6 +280,9 @@ func NewDynUniverse(r *rand.Rand) *DynUniverse {
 				res[0]["properties"] = props
 			}
 			props[strings.ToLower(suffix)] = rootEntry
+		}
+		if nameFin {
+			route = append(route, "k")
 		}
 		u.Routes = append(u.Routes, route)
 	}
